@@ -3,7 +3,9 @@ package c07
 
 import (
 	"fmt"
+	"os"
 
+	"github.com/goatcms/goatcore/filesystem/filespace/diskfs"
 	"github.com/goatcms/goatcore/filesystem/filespace/memfs"
 	"github.com/goatcms/goatcore/filesystem/fscache"
 	"pgregory.net/rapid"
@@ -15,6 +17,7 @@ import (
 type Case struct {
 	Remote []fsmodel.TNode `json:"remote"`
 	Ops    []fsmodel.Op    `json:"ops"`
+	Disk   bool            `json:"disk,omitempty"` // the remote is a disk filespace in a temp dir instead of memfs
 }
 
 // Excluded generator classes (open known findings), see known_findings.json.
@@ -43,7 +46,7 @@ func Gen(rt *rapid.T) Case {
 	if hx.Thorough() {
 		max = 50
 	}
-	c := Case{Remote: fsmodel.Flatten(remote)}
+	c := Case{Remote: fsmodel.Flatten(remote), Disk: hx.Chance(rt, 8, "disk")}
 	c.Ops = fsmodel.GenHistory(rt, fsmodel.GenCfg{MinOps: 1, MaxOps: max, Views: true, NoisyPaths: true, Initial: remote,
 		DropFailingMutations: true,
 		Weights:              map[string]int{"Remove": 10, "RemoveAll": 8, "ReadDir": 10, "IsExist": 6, "IsDir": 5, "IsFile": 5},
@@ -61,7 +64,20 @@ func Gen(rt *rapid.T) Case {
 func Exec(c Case) hx.Verdict { return hx.Guard(func() hx.Verdict { return run(c) }) }
 
 func run(c Case) hx.Verdict {
-	remoteFS, err := memfs.NewFilespace()
+	var remoteFS fsmodel.FS
+	var err error
+	if c.Disk {
+		dir, derr := os.MkdirTemp("", "c07-")
+		if derr != nil {
+			v := hx.Pass()
+			v.Inconclusive = true
+			return v
+		}
+		defer os.RemoveAll(dir)
+		remoteFS, err = diskfs.NewFilespace(dir)
+	} else {
+		remoteFS, err = memfs.NewFilespace()
+	}
 	if err != nil {
 		return hx.Fail("setup", "%v", err)
 	}
@@ -77,6 +93,9 @@ func run(c Case) hx.Verdict {
 	m.Root = initial.Clone()
 	b := fsmodel.NewBackend("cache", cache)
 	v := hx.Pass()
+	if c.Disk {
+		v.Label("remote-on-disk")
+	}
 	fail := func(i int, clause, detail string) hx.Verdict {
 		f := hx.Fail(clause, "%s", detail)
 		f.Step = i
